@@ -134,3 +134,44 @@ package eval
 //@         || (forall n string :: {n in old(ec.ownerToPods[ownerKey(p)])} old(n in ec.ownerToPods[ownerKey(p)]) ==> n == podName)) ==>
 //@         (forall k string :: {lruHas(ec.cache)[k]} strContains(k, ownerKey(p)) ==> !lruHas(ec.cache)[k])
 //@   ensures [C15] only: forall k string :: {lruHas(ec.cache)[k]} lruHas(ec.cache)[k] ==> old(lruHas(ec.cache)[k])
+
+// ---------------------------------------------------------------------------------------------
+// CheckIfAllowed: the cache protocol (write-through, no other entry touched)
+// ---------------------------------------------------------------------------------------------
+
+//@ func (*PolicyEngine).getPeer
+//@   requires pe != nil
+//@   ensures [C03,C15] ok: res1 == nil ==> peerOK(res0)
+//@   ensures [C03,C15] pod: (res1 == nil && !isCIDRStr(p) && !isIPStr(p)) ==>
+//@         (dyntype(res0, *k8s.PodPeer) && fresh(unwrap(res0, *k8s.PodPeer)) && p in pe.podsMap && unwrap(res0, *k8s.PodPeer).Pod == pe.podsMap[p])
+//@   ensures [C03,C15] ip: (res1 == nil && (isCIDRStr(p) || isIPStr(p))) ==> dyntype(res0, *k8s.IPBlockPeer)
+
+//@ pred lruOthersKept(c Ref, key string) = forall k string :: {lruHas(c)[k]} {lruVal(c)[k]} k != key ==>
+//@     ((lruHas(c)[k] ==> old(lruHas(c)[k])) && lruVal(c)[k] == old(lruVal(c)[k]))
+
+//@ func (*PolicyEngine).allowedXgressConnection
+//@   requires pe != nil && pe.cache != nil && peerOK(src) && peerOK(dst)
+//@   modifies *
+//@   modifies lruHas { r | r == pe.cache.cache }, lruVal { r | r == pe.cache.cache }, PolicyEngine.cache { r | false }, evalCache.cache { r | false }
+//@   ensures [C03,C15] stored: (res1 == nil && pe.cache.cache != nil && connKey(src, dst, protocol, port) != "") ==>
+//@         (lruHas(pe.cache.cache)[connKey(src, dst, protocol, port)] && lruVal(pe.cache.cache)[connKey(src, dst, protocol, port)] == res0)
+//@   ensures [C03,C15] others: lruOthersKept(pe.cache.cache, connKey(src, dst, protocol, port))
+//@   ensures [C03,C15] nokey: (pe.cache.cache == nil || connKey(src, dst, protocol, port) == "") ==>
+//@         (lruHas(pe.cache.cache) == old(lruHas(pe.cache.cache)) && lruVal(pe.cache.cache) == old(lruVal(pe.cache.cache)))
+
+// the key under which CheckIfAllowed(src, dst, protocol, port) caches its verdict when both ends are pods with owners
+//@ fun podConnKey(pe *PolicyEngine, src string, dst string, protocol string, port string) string =
+//@     strJoin4(ownerKey(pe.podsMap[src]), ownerKey(pe.podsMap[dst]), protocol, port, "/")
+//@ pred podQuery(pe *PolicyEngine, s string) = !isCIDRStr(s) && !isIPStr(s)
+
+//@ func (*PolicyEngine).CheckIfAllowed
+//@   requires pe != nil && pe.cache != nil && pe.cache.cache != nil
+//@   modifies *
+//@   modifies lruHas { r | r == pe.cache.cache }, lruVal { r | r == pe.cache.cache }, PolicyEngine.cache { r | false }, evalCache.cache { r | false }
+//@   modifies PolicyEngine.podsMap { r | false }, map[string]*k8s.Pod { m | false }
+//@   ensures [C03,C15] writethrough: (res1 == nil && podQuery(pe, src) && podQuery(pe, dst)
+//@         && pe.podsMap[src].Owner.Name != "" && pe.podsMap[dst].Owner.Name != ""
+//@         && !(pe.podsMap[src].Name == pe.podsMap[dst].Name && pe.podsMap[src].Namespace == pe.podsMap[dst].Namespace)) ==>
+//@         (lruHas(pe.cache.cache)[podConnKey(pe, src, dst, protocol, port)]
+//@          && lruVal(pe.cache.cache)[podConnKey(pe, src, dst, protocol, port)] == res0)
+//@   ensures [C03,C15] others: (podQuery(pe, src) && podQuery(pe, dst)) ==> lruOthersKept(pe.cache.cache, podConnKey(pe, src, dst, protocol, port))
